@@ -1,10 +1,105 @@
-(* C20 — Archives: volumes read as one file; extraction is faithful and confined.  (work in progress) *)
-From Coq Require Import List NArith ZArith Bool.
-From AdltV Require Import Base.Res Base.MachInt Archive.Chain Exec.C20.
+(* C20 — Archives: volumes read as one file; extraction is faithful and confined.
+   Statements only; proofs are in Archive/ChainProofs.v and Archive/PathsProofs.v.
+
+   Part 1 (SeekableChain, model Archive/Chain.v of the code including its three `fix:` commits).
+   [chain_session datas ops] opens the volumes [datas] (any number, empty ones anywhere) and runs
+   [ops]; [Refines D p ops rs] says that [rs] is an answer of ONE file with contents [D] at position
+   [p]: `Seek` answers the file position of the target clamped into [0, len] (the chain never keeps a
+   position outside its data; inside [0, len] that is exactly std::io::Cursor, theorem
+   C20_reference_is_file_in_range), `ReadFull n` (the caller's fill loop: read_exact, read_to_end,
+   io::copy) answers exactly the next n bytes of the file, and one `Read n` call answers a prefix of
+   them that is empty only if n = 0 or the position is at the end (the `Read` contract; the chain is
+   short at volume boundaries). *)
+From Coq Require Import List NArith ZArith Bool Lia.
+From AdltV Require Import Base.Res Base.MachInt Archive.Chain Archive.ChainProofs Exec.C20.
 Import ListNotations.
 Open Scope N_scope.
 
+(* every split into volumes (including empty ones), every finite sequence of operations *)
+Theorem C20_chain_refines_concat : forall (datas : list (list N)) (ops : list op),
+  N.of_nat (length (concat datas)) <= u64max ->
+  exists rs, chain_session datas ops = Ok rs /\ Refines (concat datas) 0 ops rs.
+Proof. exact chain_refines_concat. Qed.
+
+(* with filling reads only, the answers are a function of the concatenation: those of the reference cursor *)
+Theorem C20_chain_equals_reference_on_full_reads : forall datas ops,
+  N.of_nat (length (concat datas)) <= u64max -> full_reads_only ops ->
+  chain_session datas ops = Ok (ref_run (concat datas) 0 ops).
+Proof.
+  intros datas ops Hb Hf. destruct (chain_refines_concat datas ops Hb) as (rs & Hr & Href).
+  rewrite Hr. f_equal. apply refines_full_reads; assumption.
+Qed.
+
+(* the reference is std::io::Cursor / a regular file as long as the seek targets stay inside [0, len] *)
+Theorem C20_reference_is_file_in_range : forall D ops p,
+  in_range D p ops -> map Some (ref_run D p ops) = map res_of_file (file_run D p ops).
+Proof. exact ref_is_file. Qed.
+
+Theorem C20_chain_is_cursor_in_range : forall datas ops,
+  N.of_nat (length (concat datas)) <= u64max -> full_reads_only ops -> in_range (concat datas) 0 ops ->
+  exists rs, chain_session datas ops = Ok rs /\ map Some rs = map res_of_file (file_run (concat datas) 0 ops).
+Proof.
+  intros datas ops Hb Hf Hr. exists (ref_run (concat datas) 0 ops). split.
+  - apply C20_chain_equals_reference_on_full_reads; assumption.
+  - apply ref_is_file. exact Hr.
+Qed.
+
+(* the position reported by a seek is the position the next read delivers from *)
+Theorem C20_seek_reports_next_read_position : forall datas ops s n rs,
+  chain_session datas (ops ++ [Seek s; ReadFull n]) = Ok rs ->
+  exists pre q, rs = pre ++ [RPos q; RBytes (slice (concat datas) q n)] /\ length pre = length ops.
+Proof.
+  intros datas ops s n rs H.
+  destruct (N.le_gt_cases (N.of_nat (length (concat datas))) u64max) as [Hb|Hb].
+  - destruct (chain_refines_concat datas (ops ++ [Seek s; ReadFull n]) Hb) as (rs' & Hr & Href).
+    rewrite H in Hr. inversion Hr; subst rs'. eapply refines_seek_then_read_full. exact Href.
+  - destruct (chain_new_overflow datas Hb) as [st Hp]. unfold chain_session in H. rewrite Hp in H. discriminate.
+Qed.
+
+Theorem C20_seek_reports_next_single_read_position : forall datas ops s n rs,
+  chain_session datas (ops ++ [Seek s; Read n]) = Ok rs ->
+  exists pre q out, rs = pre ++ [RPos q; RBytes out] /\ length pre = length ops /\
+     out = slice (concat datas) q (N.of_nat (length out)) /\ N.of_nat (length out) <= n /\
+     (out = [] -> n = 0 \/ N.of_nat (length (concat datas)) <= q).
+Proof.
+  intros datas ops s n rs H.
+  destruct (N.le_gt_cases (N.of_nat (length (concat datas))) u64max) as [Hb|Hb].
+  - destruct (chain_refines_concat datas (ops ++ [Seek s; Read n]) Hb) as (rs' & Hr & Href).
+    rewrite H in Hr. inversion Hr; subst rs'. eapply refines_seek_then_read. exact Href.
+  - destruct (chain_new_overflow datas Hb) as [st Hp]. unfold chain_session in H. rewrite Hp in H. discriminate.
+Qed.
+
+(* the specification is not empty: the deterministic reference is one of the allowed answers *)
+Theorem C20_reference_is_an_answer : forall D ops p, Refines D p ops (ref_run D p ops).
+Proof. exact ref_run_refines. Qed.
+
+(* the only failure of the model is the overflow of the u64 sum of the sizes in `new` *)
+Theorem C20_chain_fails_only_on_size_overflow : forall datas,
+  u64max < N.of_nat (length (concat datas)) -> exists s, chain_new datas = Panic s.
+Proof. exact chain_new_overflow. Qed.
+
+(* non-vacuity + the three repaired witnesses (DESIGN Appendix A, C20-1), evaluated on the model *)
+Example C20_chain_nonvacuous :
+  chain_session [[104; 105]; []; []; [33]; [1; 2; 3]; []]
+                [Read 5; Seek (Current 0%Z); ReadFull 3; Seek (End (-2)%Z); Read 9; Seek (Start 1); ReadFull u64max]
+  = Ok [RBytes [104; 105]; RPos 2; RBytes [33; 1; 2]; RPos 4; RBytes [2; 3]; RPos 1; RBytes [105; 33; 1; 2; 3]].
+Proof. vm_compute. reflexivity. Qed.
 Example C20_witness_empty_volume_repaired :
   chain_session [[97; 98]; []; [99; 100]] [ReadFull u64max] = Ok [RBytes [97; 98; 99; 100]].
 Proof. vm_compute. reflexivity. Qed.
-Print Assumptions C20_witness_empty_volume_repaired.
+Example C20_witness_seek_end_positive_repaired :
+  chain_session [[97; 98]; [99; 100]] [Seek (Start 1); Seek (End 3%Z); Read 1] = Ok [RPos 1; RPos 4; RBytes []].
+Proof. vm_compute. reflexivity. Qed.
+Example C20_witness_seek_min_offset_repaired :
+  chain_session [[97; 98]; [99; 100]] [Seek (Start 1); Seek (Current (-9223372036854775808)%Z); Read 1]
+  = Ok [RPos 1; RPos 0; RBytes [97]].
+Proof. vm_compute. reflexivity. Qed.
+
+Print Assumptions C20_chain_refines_concat.
+Print Assumptions C20_chain_equals_reference_on_full_reads.
+Print Assumptions C20_reference_is_file_in_range.
+Print Assumptions C20_chain_is_cursor_in_range.
+Print Assumptions C20_seek_reports_next_read_position.
+Print Assumptions C20_seek_reports_next_single_read_position.
+Print Assumptions C20_reference_is_an_answer.
+Print Assumptions C20_chain_fails_only_on_size_overflow.
